@@ -71,6 +71,10 @@ func c15(m dsl.Matcher) {
 	m.Match(` + "`probe($x)`" + `).Report(` + "`V=$x;W=$$;`" + `).Suggest(` + "`$x`" + `)
 }
 
+func c15s(m dsl.Matcher) {
+	m.Match(` + "`probe2($x)`" + `).Suggest(` + "`$x`" + `)
+}
+
 func c15comment(m dsl.Matcher) {
 	m.MatchComment(` + "`//c15:(?P<body>\\w*)`" + `).Report(` + "`V=$body;W=$$;`" + `).Suggest(` + "`$body`" + `)
 }
@@ -108,7 +112,7 @@ func main() {
 
 	// engine level
 	var sb strings.Builder
-	sb.WriteString("package target\n\nfunc probe(string) {}\n\nfunc f() {\n")
+	sb.WriteString("package target\n\nfunc probe(string) {}\nfunc probe2(string) {}\n\nfunc f() {\n")
 	const alphabet = "abcdefghijklmnopqrstuvwxyz0123456789ABCDEFGHIJKLMNOPQRSTUVWXYZ"
 	var texts []string
 	for n := 0; n <= *maxN+40; n++ {
@@ -122,6 +126,7 @@ func main() {
 		texts = append(texts, lit.String())
 		fmt.Fprintf(&sb, "\tprobe(%s)\n", lit.String())
 		fmt.Fprintf(&sb, "\t//c15:%s\n", strings.Trim(lit.String(), "\""))
+		fmt.Fprintf(&sb, "\tprobe2(%s)\n", lit.String())
 	}
 	sb.WriteString("}\n")
 	t, err := hutil.CheckTarget(*tmp, "target/target.go", []byte(sb.String()))
@@ -139,21 +144,32 @@ func main() {
 		Ls = append(Ls, rng.Intn(*maxN+50))
 	}
 	state := ruleguard.NewRunnerState(e)
+	shared := hutil.NewCtxRunner(t, ruleguard.NewRunnerState(e))
 	for li, L := range Ls {
-		// every second run reuses one RunnerState, so a truncate length leaking between runs would show
-		var st *ruleguard.RunnerState
-		if li%2 == 1 {
-			st = state
+		// three ways a driver may run: fresh context + nil state, fresh context + reused state,
+		// and ONE context object (with its state) whose TruncateLen field is changed between runs
+		var reports []hutil.Report
+		var pmsg string
+		switch li % 3 {
+		case 0:
+			reports, pmsg = hutil.Run(e, t, L, "", nil)
+		case 1:
+			reports, pmsg = hutil.Run(e, t, L, "", state)
+		default:
+			shared.Ctx.TruncateLen = L
+			reports, pmsg = shared.Run(e)
 		}
-		reports, pmsg := hutil.Run(e, t, L, "", st)
-		enc.Encode(engineObs{K: "count", L: L, Panic: pmsg, NRep: len(reports), Msg: fmt.Sprint(2 * len(texts))})
+		enc.Encode(engineObs{K: "count", L: L, Panic: pmsg, NRep: len(reports), Msg: fmt.Sprint(3 * len(texts))})
 		if pmsg != "" {
 			continue
 		}
 		for _, r := range reports {
-			if r.Group == "c15" {
+			switch r.Group {
+			case "c15":
 				enc.Encode(engineObs{K: "engine", Text: string(t.Src[r.Pos+len("probe(") : r.End-1]), L: L, Msg: r.Message, Sugg: r.Sugg, NRep: len(reports)})
-			} else {
+			case "c15s":
+				enc.Encode(engineObs{K: "suggonly", Text: string(t.Src[r.Pos+len("probe2(") : r.End-1]), L: L, Msg: r.Message, Sugg: r.Sugg, NRep: len(reports)})
+			default:
 				enc.Encode(engineObs{K: "comment", Text: string(t.Src[r.Pos+len("//c15:") : r.End]), L: L, Msg: r.Message, Sugg: r.Sugg, NRep: len(reports)})
 			}
 		}
